@@ -579,7 +579,8 @@ def run(ctx):
                        'sweeps = every 0/1 pattern combination of the listed blocks; non-trivial = no empty level pattern; '
                        'distinct by full case content')
     ctx.cov['input_distribution'] = {'cases': dist, 'sweeps': sw_dist}
-    ctx.cov['exhaustive'] = sorted(k for k in sw_dist if k.endswith(':all'))
+    ctx.cov['exhaustive'] = False      # the random stream is not exhaustive; the swept families listed below are
+    ctx.cov['exhaustive_parts'] = sorted(k for k in sw_dist if k.endswith(':all'))
     for k in (0, 1, 5):
         ctx.sample({'case': cases[k], 'impl_nonzero': results[k].get('nz') if not is_err(results[k]) else results[k]})
     return ctx.finish()
